@@ -448,7 +448,13 @@ def _save_im(filename, im, depth=8):
         tiffinfo[270] = yaml.dump(metadat, default_flow_style=True)
 
     im = im.values
-    if im.ndim > 2: im = im[0]
+    if im.ndim > 2:
+        if len(im) > 1:
+            raise BadImage("Cannot save {} z planes in a single image. Use "
+                           "save_images to save each plane in its own file, "
+                           "or save for an HDF5 file of the whole volume."
+                           .format(len(im)))
+        im = im[0]
 
     if depth != 'float':
         if depth == 8:
